@@ -324,10 +324,15 @@ class Sample:
         ) = pickle.load(
             fd
         )  # type: ignore
-        self.profile.display_format = False
-        self.profile.debug_probe = ""
-        self.profile.debug_novel = False
-        self.profile.min_avg_coverage = 2.0
+        # Dumps written by older versions lack these options
+        for k, v in [
+            ("display_format", False),
+            ("debug_probe", ""),
+            ("debug_novel", False),
+            ("min_avg_coverage", 2.0),
+        ]:
+            if not hasattr(self.profile, k):
+                setattr(self.profile, k, v)
         self.phases = {f"r{i}": v for i, v in enumerate(phases)}
         norm = {p: [q for q, n in c.items() for _ in range(n)] for p, c in norm.items()}
         muts = {p: [q for q, n in c.items() for _ in range(n)] for p, c in muts.items()}
